@@ -130,22 +130,59 @@ def taken_reaches(f, take_pred, sink_pred, limit=3000):
 
 
 def flag_names(ctx, R, f, adt_suffix='::Args'):
-    """command line options are read under their own name: field `min` from is_present("min"), `batch_size` from "batch-size" ..."""
-    n = 0
+    """command line options are read under their own name: field `min` from is_present("min"), `batch_size` from "batch-size" ...
+    (fields of nested option structs are compared with their own names)"""
+    READS = ('is_present', 'value_of', 'value_of_lossy', 'value_of_os', 'values_of', 'values_of_os', 'values_of_lossy')
+    n = [0]
+
+    def reads(v):
+        """option names read in v, not looking inside nested struct literals"""
+        out = []
+        stack = [v]
+        while stack:
+            y = stack.pop()
+            if not isinstance(y, tuple):
+                continue
+            if y[0] == 'agg' and not y[1].startswith(('std::option::Option', 'std::result::Result')) and y is not v:
+                continue
+            if y[0] == 'call' and isinstance(y[1], str) and y[1].rsplit('::', 1)[-1] in READS and len(y[2]) == 2 and y[2][1][0] == 'cbytes':
+                try:
+                    out.append(bytes.fromhex(y[2][1][1]).decode())
+                except (ValueError, UnicodeDecodeError):
+                    pass
+            if y[0] == 'agg':
+                stack.extend(x for _, x in y[2])
+            elif y[0] == 'call':
+                stack.extend(y[2])
+            elif y[0] in ('field', 'variant', 'okof', 'cast', 'discr'):
+                stack.append(y[1])
+            elif y[0] == 'un':
+                stack.append(y[2])
+            elif y[0] == 'bin':
+                stack.extend([y[2], y[3]])
+            elif y[0] == 'after':
+                stack.extend([y[1], y[3]])
+            elif y[0] in ('tuple', 'array'):
+                stack.extend(y[1])
+        return out
+
+    def scan(agg):
+        for fname, v in agg[2]:
+            inner = v
+            while inner[0] in ('okof', 'cast') or (inner[0] == 'agg' and inner[1].startswith(('std::option::Option::Some', 'std::result::Result::Ok')) and inner[2]):
+                inner = inner[1] if inner[0] in ('okof', 'cast') else inner[2][0][1]
+            if inner[0] == 'agg' and not inner[1].startswith('std::'):
+                scan(inner)            # a nested struct of options: its own field names count
+                continue
+            for opt in reads(v):
+                n[0] += 1
+                ctx.check(R, opt.replace('-', '_') == fname, 'flag:%s.%s' % (f.path, fname), 'the field `%s` of the command\'s arguments is read from the option "%s": the user\'s --%s is ignored and --%s acts in its place' % (fname, opt, fname.replace('_', '-'), opt), fn=f)
     for p in explore(f, max_visits=1, havoc=True, limit=50):
         if p.end != 'return':
             continue
         for x in walk(p.ret()):
             if x[0] == 'agg' and x[1].endswith(adt_suffix):
-                for fname, v in x[2]:
-                    for y in walk(v):
-                        if y[0] == 'call' and isinstance(y[1], str) and y[1].rsplit('::', 1)[-1] in ('is_present', 'value_of', 'value_of_lossy', 'value_of_os', 'values_of', 'values_of_os', 'values_of_lossy') and len(y[2]) == 2 and y[2][1][0] == 'cbytes':
-                            try:
-                                opt = bytes.fromhex(y[2][1][1]).decode()
-                            except (ValueError, UnicodeDecodeError):
-                                continue
-                            n += 1
-                            ctx.check(R, opt.replace('-', '_') == fname, 'flag:%s.%s' % (f.path, fname), 'the field `%s` of the command\'s arguments is read from the option "%s": the user\'s --%s is ignored and --%s acts in its place' % (fname, opt, fname.replace('_', '-'), opt), fn=f)
+                scan(x)
                 break
         break
-    return n
+    return n[0]
